@@ -45,6 +45,7 @@ func checkC17(c *Ctx) {
 	c17Clamp(c, validate)
 	c17Table(c)
 	c17TextTable(c, classify)
+	c17ConfigImmutable(c)
 	c17Options(c, validate)
 	c17ErrorText(c, exec)
 	c17NoTransportReplay(c)
@@ -1954,5 +1955,47 @@ func c17TextTable(c *Ctx, classify *ssa.Function) {
 		}
 		c.R.Check(transientTextReference[f], "R-text-table", sprintf("text fragment %q", f), c.Pos(found[f]), "one of the fragments that mark a transient failure",
 			sprintf("the retry classifier treats an error whose text contains %q as transient; that fragment is not among those that mark a transient failure (connection refused / reset / timeout / lost / aborted, i/o-, read-, write-, dial timeout, EOF): failures it also matches that are permanent are re-attempted MaxRetries times", f))
+	}
+}
+
+// ---------------------------------------------------------------- R-config-immutable
+// One retry configuration object is shared by a client and its transport for their whole life; every call reads it.
+// "The k-th wait is InitialBackoff x Factor^(k-1) capped at MaxBackoff" holds for every call only if no call changes
+// it: outside construction code (options, constructors, Validate on its own copy) nothing stores into a member of a
+// retry configuration that is not a local copy — a per-call adjustment written through the shared pointer stays behind
+// for all later calls.
+func c17ConfigImmutable(c *Ctx) {
+	isCfg := func(t *types.Named) bool {
+		if t == nil {
+			return false
+		}
+		k := ir.TypeKey(t)
+		return k == "retry.Config" || k == "RetryConfig"
+	}
+	n := 0
+	for _, fn := range c.P.LibFns {
+		if c.InitOnly()[fn] {
+			continue
+		}
+		ir.EachInstr(fn, func(_ *ssa.BasicBlock, _ int, in ssa.Instruction) {
+			st, ok := in.(*ssa.Store)
+			if !ok {
+				return
+			}
+			fa, ok := st.Addr.(*ssa.FieldAddr)
+			if !ok {
+				return
+			}
+			f, base, ok := ir.FieldOf(fa)
+			if !ok || !isCfg(f.Struct) {
+				return
+			}
+			n++
+			c.R.Check(ir.BaseAlloc(base), "R-config-immutable", sprintf("%s written in %s", f.Key(), fname(fn)), c.Pos(st.Pos()), "the configuration written is a local copy",
+				sprintf("%s stores into %s of a retry configuration it did not make itself (one reached through a pointer it was handed or a member): that object is shared by the client and its transport, so the value written for this call is what every later call waits by — the k-th wait is no longer InitialBackoff x Factor^(k-1) capped at the configured MaxBackoff", fname(fn), f.Key()))
+		})
+	}
+	if n == 0 {
+		c.R.Hold("R-config-immutable", "no store into a retry configuration outside construction code", "", "")
 	}
 }
